@@ -266,7 +266,8 @@ class Style:
         Returns:
             str: String containing codes.
         """
-        if self._ansi is None or self._ansi[0] != color_system:
+        ansi = self._ansi
+        if ansi is None or ansi[0] != color_system:
             sgr: List[str] = []
             append = sgr.append
             _style_map = self._style_map
@@ -296,8 +297,8 @@ class Style:
                         foreground=False
                     )
                 )
-            self._ansi = (color_system, ";".join(sgr))
-        return self._ansi[1]
+            ansi = self._ansi = (color_system, ";".join(sgr))
+        return ansi[1]
 
     @classmethod
     @lru_cache(maxsize=1024)
